@@ -63,7 +63,7 @@ def check_C01(tier):
         nd += 1
         o = by_id[r["id"]]
         v.disagree(r, "%r %s path %r (code accepts %s than documented)" % (
-            L.expr_of(o), "accepts" if r["dir"] == "more" else "rejects", C.text(r["path"]), r["dir"]))
+            L.expr_of(o), "accepts" if r["dir"] == "more" else "rejects", C.text(r["path"]), r["dir"]), pin=C.pin_of(o))
     # B3: replay every witness in the real engine
     n_replayed, problems = L.replay_witnesses(by_id, witnesses)
     tool = [p for p in problems if p["kind"] == "table_vs_engine"]
@@ -176,7 +176,7 @@ def query_check(prop, tier):
         if r["t"] != "DISAGREE":
             continue
         o = by_id[r["id"]]
-        v.disagree(r, "%r reports %s but path %r: %s" % (L.expr_of(o), reported(prop, o), C.text(r["path"]), r["what"]))
+        v.disagree(r, "%r reports %s but path %r: %s" % (L.expr_of(o), reported(prop, o), C.text(r["path"]), r["what"]), pin=C.pin_of(o))
         witness.setdefault(r["id"], r)
     # observation-level clauses that need no product: validated record by record by ObsCheck
     obs_stats = None
@@ -271,7 +271,7 @@ def run_obs(prop, cfg_prop, obs_path, by_id, v, describe):
     for r in recs:
         if r["t"] == "DISAGREE":
             n += 1
-            v.disagree(r, describe(r, by_id[r["id"]]))
+            v.disagree(r, describe(r, by_id[r["id"]]), pin=C.pin_of(by_id[r["id"]]))
     return stats, n
 
 
@@ -496,6 +496,13 @@ def check_C05(tier):
     return rc
 
 
+def law_pin(by_id, rel):
+    """a law instance relates several observations: the input is the instance, the fingerprint all of them"""
+    os_ = [by_id[rel["orig"]]] + [by_id[m] for m in rel["members"]]
+    pins = [C.pin_of(o) for o in os_]
+    return ("%s|%s|" % (rel["law"], rel["mode"]) + "||".join(p[0] for p in pins), "||".join(p[1] for p in pins))
+
+
 def check_C07(tier):
     t0 = time.time()
     fams = [("core", 5), ("mini", 6), ("flags", 6)] if tier == "quick" else [("core", 6), ("mini", 7), ("case", 4), ("flags", 6)]
@@ -613,7 +620,8 @@ def check_C07(tier):
         r["zt"] = rel["zt"]
         r["tr"] = rel["tr"]
         v.disagree(r, "%s law: %r vs %s on path %r: %s" % (rel["law"], L.expr_of(by_id[rel["orig"]]),
-                                                       [L.expr_of(by_id[m]) for m in rel["members"]], C.text(r["path"]), r["what"]))
+                                                       [L.expr_of(by_id[m]) for m in rel["members"]], C.text(r["path"]), r["what"]),
+                   pin=law_pin(by_id, rel))
         witness.setdefault(r["rel"], r)
     # bind the tables to the real engine on the witnesses of disagreements and on seeded samples
     n_replayed = 0
@@ -662,7 +670,7 @@ def check_C08(tier):
         n += 1
         o = by_id[r["id"]]
         v.disagree(r, "%r partitions into prefix %r and postfix %r; path %r: %s" % (
-            L.expr_of(o), C.text(o["part"]["prefix"]), C.text(o["part"]["post"]) if o["part"]["has_post"] else None, C.text(r["path"]), r["what"]))
+            L.expr_of(o), C.text(o["part"]["prefix"]), C.text(o["part"]["post"]) if o["part"]["has_post"] else None, C.text(r["path"]), r["what"]), pin=C.pin_of(o))
         witness.setdefault(r["id"], r)
     if not entered:
         raise C.ToolError("vacuous run: no case entered the product")
@@ -787,7 +795,8 @@ def check_C04(tier):
         nd += 1
         o = by_id[r["id"]]
         caps = crecs[r["rec"] - 1]["caps"]
-        v.disagree(r, "%r on path %r captures %s: %s" % (L.expr_of(o), C.text(r["path"]), [C.text(c["s"]) if c["some"] else None for c in caps], r["what"]))
+        v.disagree(r, "%r on path %r captures %s: %s" % (L.expr_of(o), C.text(r["path"]), [C.text(c["s"]) if c["some"] else None for c in caps], r["what"]),
+                   pin=C.pin_of(dict(o, _caps=caps), extra=json.dumps(r["path"])))
     with_caps = [c for c in crecs if len(c["caps"]) > 2]
     samples = [{"expression": L.expr_of(by_id[c["id"]]), "path": C.text(c["path"]), "captures": [C.text(x["s"]) if x["some"] else None for x in c["caps"]]}
                for c in random.Random(C.SEED).sample(with_caps, min(6, len(with_caps)))]
@@ -1379,7 +1388,7 @@ def negation_sound(tier, v, extra_patterns=()):
             k = C.match_known(v.known, "C03", r)
             unsound.setdefault(L.expr_of(by_id[r["id"]]), k["id"] if k else "unlisted")
             v.disagree(r, "not(%r): %r is beneath a path that the exhaustive program matches but is not matched by the negation itself: the tree would be discarded with it" % (
-                L.expr_of(by_id[r["id"]]), C.text(r["path"])))
+                L.expr_of(by_id[r["id"]]), C.text(r["path"])), pin=C.pin_of(by_id[r["id"]]))
     if n == 0:
         raise C.ToolError("vacuous run of NegCheck")
     return stats, n, unsound
